@@ -7,8 +7,9 @@
 //   is compared is the stream after the peer's own, independent RC4 decryption.
 //   R:i:b:l / C:i:b:l  the peer sends REQUEST / CANCEL (batched until the next W)
 //   D:0                unchoke decision of the real choke_queue: the peer's INTERESTED (batched, takes
-//                      effect in order when read); if the peer was snubbed by D:1 it is un-snubbed first
-//                      and 11 s of virtual time pass.
+//                      effect in order when read); if the peer was snubbed by D:1, 11 s of virtual time pass
+//                      and the snub is lifted, which unchokes at once (no R/C may be pending: generator
+//                      puts W:0 in front).
 //   D:1                choke decision: Peer::set_snubbed(true) on the real choke_queue, at once.
 //                      Must not follow R/C/D:0 directly and must be followed by a W (generator puts
 //                      W:0): any stepping of the library afterwards is a write opportunity.
@@ -16,6 +17,8 @@
 //                      quiescence, the peer reads everything available; snapshot.
 // Output: see ocaml/c05_driver.ml; after " || " oracle-only fields (not compared with the model):
 //   pay=<1|0 per PIECE: payload equals the content range>  other=<count of non choke/piece msgs>
+//   leak=<ChunkList references left after the connection was torn down, "-" = none>
+// snapshots end in /c<index of the chunk the connection holds mapped|->r<sum of the torrent's chunk references>
 #include "config.h"
 
 #include <filesystem>
@@ -85,7 +88,9 @@ static std::string snapshot(Session& S, Torrent* T, const std::string& ip, uint1
          show_piece(pcb->m_up_piece.index(), pcb->m_up_piece.offset(), pcb->m_up_piece.length()) +
          (enc && w == 'P' ? (pcb->m_encrypt_buffer ? "/e" + std::to_string(pcb->m_encrypt_buffer->remaining()) + ":" +
                                                        std::to_string(pcb->m_encrypt_buffer->size_end())
-                                                   : std::string("/e-")) : std::string());
+                                                   : std::string("/e-")) : std::string()) +
+         "/c" + (pcb->m_up_chunk.is_valid() ? std::to_string(pcb->m_up_chunk.index()) : std::string("-")) +
+         "r" + std::to_string(S.chunk_refs_total(T));
 }
 
 static std::string run_case(Session& S, const std::string& line) {
@@ -149,12 +154,19 @@ static std::string run_case(Session& S, const std::string& line) {
       // batch is read, in order). After a snub: un-snub first (the queue then waits for INTERESTED)
       // and let 11 s of virtual time pass (choke_queue refuses to unchoke within 10 s of the last change).
       torrent::PeerConnectionBase* pcb = S.find_connection(T, lip, port);
+      bool need_interested = true;
       if (pcb != nullptr && pcb->m_up_choke.snubbed()) {
+        if (!batch.empty()) return "BADCASE:D0-after-message";
         S.advance_us(11 * 1000000);
         pcb = S.find_connection(T, lip, port);
-        if (pcb != nullptr) S.force_choke(pcb, false);
+        if (pcb != nullptr) {
+          S.force_choke(pcb, false);
+          // since /repo d278df5 the snub keeps the peer's interest and lifting it unchokes at once;
+          // before that fix the queue waited for a fresh INTERESTED
+          need_interested = pcb->m_up_choke.choked();
+        }
       }
-      batch += WirePeer::interested();
+      if (need_interested) batch += WirePeer::interested();
     } else if (o == "D:1") {
       if (!batch.empty()) return "BADCASE:D1-after-message";
       torrent::PeerConnectionBase* pcb = S.find_connection(T, lip, port);
@@ -220,10 +232,11 @@ static std::string run_case(Session& S, const std::string& line) {
   if (!err.empty()) out += " " + err;
   out += " || pay=" + (pay.empty() ? "-" : pay) + " other=" + std::to_string(other) + " eof=" + std::to_string(P.eof ? 1 : 0);
 
-  // tear the connection down before the next case
+  // tear the connection down before the next case; afterwards no chunk reference may be left
   P.close_all();
   pump(S, {});
   Session::clear_io_limits();
+  out += " leak=" + S.dump_chunk_refs(T);
   return out;
 }
 
